@@ -24,7 +24,7 @@ sys.path.insert(0, os.path.dirname(__file__))
 import rustsrc as rs  # noqa: E402
 
 VERIF = os.path.dirname(os.path.dirname(os.path.abspath(__file__)))
-KDIR = os.path.join(VERIF, 'contracts', 'kani')
+KDIR = os.environ.get('VERIF_KDIR') or os.path.join(VERIF, 'contracts', 'kani')   # override: develop harnesses in a private copy
 MAP_FILES = ['src/rule.rs', 'src/subrule.rs', 'src/seg.rs', 'src/syll.rs', 'src/parser.rs', 'src/word.rs']
 MARK = ' //@K'
 
@@ -268,8 +268,12 @@ def run_harness(scratch: str, target: str, harness: str, timeout=600, mem_gb=20,
         elif kinds:
             res['status'] = 'undecided'
             res['reason'] = ','.join(sorted(kinds))
+        elif 'out of memory' in out.lower() or 'std::bad_alloc' in out:
+            res['status'] = 'oom'
         else:
-            res['status'] = 'failed'
+            # FAILED without a single failing check: the back end stopped (memory / time), not a verdict
+            res['status'] = 'error'
+            res['reason'] = 'verifier stopped without reporting a failing check'
     elif 'out of memory' in out.lower() or 'std::bad_alloc' in out or 'memory allocation' in out.lower() or proc.returncode in (-9, 137):
         res['status'] = 'oom'
     else:
@@ -346,7 +350,12 @@ def run_batch(scratch: str, target: str, harnesses, jobs=8, harness_timeout=600,
                 res['status'] = 'proved'
             elif st in ('Failure', 'Failed'):
                 kinds = _classify(failed)
-                if 'assertion' in kinds or not kinds:
+                if not failed:
+                    # "Failure" without a single failing check: CBMC was stopped (memory limit / timeout / killed under load),
+                    # not a verdict.  The driver re-runs such a harness alone before giving up (never an alarm).
+                    res['status'] = 'error'
+                    res['reason'] = 'verifier stopped without reporting a failing check (memory or time limit under load)'
+                elif 'assertion' in kinds or not kinds:
                     res['status'] = 'failed'
                 else:
                     res['status'] = 'undecided'
